@@ -328,6 +328,12 @@ impl crate::Engine {
 }
 
 impl VerifHandle {
+    /// breaks the reference cycles between the runtime and its handlers (the engine is unusable afterwards)
+    pub fn teardown(&self) {
+        self.rt.emitter().verif_teardown();
+        self.rt.cache().verif_teardown();
+    }
+
     /// what the tick timer does
     pub fn tick(&self) {
         self.rt.emitter().emit_tick();
